@@ -350,4 +350,24 @@ def extract (fl : Flavour) (verbose : Bool) (archive : Str) (into : Option Str) 
     let l := match into with | some d => l.print (str "has into : " ++ d) | none => l
     finishRead (readSides (some (Tape.targetDirOf archive into)) img 0 { l := l, keep := some archive })
 
+/-! ## `DiskArchiveCli.run`: the four actions behind the check of the archive's name -/
+
+/-- the archive name is checked first: with a wrong extension nothing is opened, created or printed -/
+def gated (fl : Flavour) (archive : Str) (k : Outcome) : Outcome :=
+  match checkArchiveName fl archive with
+  | .ok _ => k
+  | .error e => { status := .raised e }
+
+def runCreate (fl : Flavour) (w : World) (verbose : Bool) (archive : Str) (srcs : List Str) : Outcome :=
+  gated fl archive (createCmd fl w verbose archive srcs)
+
+def runAdd (fl : Flavour) (w : World) (verbose : Bool) (archive : Str) (raw : Bytes) (srcs : List Str) : Outcome :=
+  gated fl archive (addCmd fl w verbose archive raw srcs)
+
+def runList (fl : Flavour) (verbose : Bool) (archive : Str) (raw : Bytes) : Outcome :=
+  gated fl archive (list fl verbose raw)
+
+def runExtract (fl : Flavour) (verbose : Bool) (archive : Str) (into : Option Str) (raw : Bytes) : Outcome :=
+  gated fl archive (extract fl verbose archive into raw)
+
 end Moto.Disk
